@@ -83,7 +83,9 @@ def gen_config(rng, i, tier="quick"):
     c["mp"] = rng.random() < 0.4
     c["data_seed"] = rng.randrange(1 << 30)
     c["rng_seed"] = rng.randrange(1 << 30)
-    c["lam_form"] = "float"
+    c["lam_form"] = rng.choice(["float", "float", "float", "matrix_const", "matrix_sym"])
+    c["readonly"] = rng.random() < 0.3
+    c["fortran"] = rng.random() < 0.2
     c["beta_form"] = rng.choice(["float", "float", "int", "vector"]) if c["beta"] == int(c["beta"]) else \
         rng.choice(["float", "vector"])
     return c
@@ -93,6 +95,11 @@ def build_inputs(c):
     rng = np.random.default_rng(c["data_seed"])
     series = [make_series(rng, T, c["N"], c["n_regimes"], c["scale"], offset=c.get("offset", 0.0))
               for T in c["lens"]]
+    if c.get("degenerate") == "duplicated":
+        series = [np.repeat(s[: max(len(s) // 3, c["W"] + 2)], 3, axis=0)[: len(s)] for s in series]
+    elif c.get("degenerate") == "constant_sensor":
+        for s in series:
+            s[:, 0] = 1.25
     if c.get("col_offsets"):
         series = [s + np.asarray(c["col_offsets"])[None, :] for s in series]
     W = c["W"]
@@ -131,6 +138,21 @@ def build_inputs(c):
     return series, hyper
 
 
+def _swapped_call(fast_ticc, how, series, hyper):
+    """Give a front end the OTHER front end's kind of input (C20)."""
+    if how == "list_to_single":
+        return fast_ticc.ticc_labels(list(series), **hyper)
+    if how == "tuple_to_single":
+        return fast_ticc.ticc_labels(tuple(series), **hyper)
+    if how == "generator_to_single":
+        return fast_ticc.ticc_labels(iter(series), **hyper)
+    if how == "array_to_joint":
+        return fast_ticc.ticc_joint_labels(series[0], **hyper)
+    if how == "vector_to_joint":
+        return fast_ticc.ticc_joint_labels(series[0][:, 0], **hyper)
+    raise ValueError(how)
+
+
 def result_digest(res):
     """Digest of the COMPLETE result (every field, bitwise)."""
     h = hashlib.sha256()
@@ -165,11 +187,14 @@ def traced_run(c, fault_plan=None, keep_model=False):
     from fast_ticc import _verif_hooks as vh
     from . import sink, faults
     series, hyper = build_inputs(c)
+    if c.get("fortran"):
+        series = [np.asfortranarray(s) for s in series]
     if c.get("readonly"):
         for s in series:
             s.setflags(write=False)
-    if c.get("fortran"):
-        series = [np.asfortranarray(s) for s in series]
+        for v in (hyper["sparsity_weight"], hyper["label_switching_cost"]):
+            if isinstance(v, np.ndarray):
+                v.setflags(write=False)
     W, K, N = c["W"], c["K"], c["N"]
     stacked_lens = [T - W + 1 for T in c["lens"]]
     hdr = {"id": c["id"], "fe": c["fe"], "lens": list(c["lens"]), "stackedLens": stacked_lens,
@@ -178,6 +203,9 @@ def traced_run(c, fault_plan=None, keep_model=False):
            "P": c["P"], "mp": bool(c["mp"]), "lamDig": proj.val_dig(hyper["sparsity_weight"]),
            "betaDig": proj.val_dig(hyper["label_switching_cost"]), "betaForm": c.get("beta_form", "float"),
            "lamForm": c.get("lam_form", "float"), "scale": c["scale"], "cfg": c}
+    hdr["fault"] = ({"kind": "wrong_front_end"} if c.get("swap") else
+                    dict(fault_plan) if fault_plan else {"kind": c.get("expect", "none")})
+    hdr["timeLimitMs"] = int(c.get("time_limit_ms", 120000))
     tracedir = common.scratch("run-")
     rec = sink.Recorder(hdr, tracedir)
     arg_snap = {"series": [proj.dig(s) for s in series],
@@ -194,7 +222,9 @@ def traced_run(c, fault_plan=None, keep_model=False):
     t0 = time.time()
     try:
         with contextlib.redirect_stdout(io.StringIO()):
-            if c["fe"] == "single":
+            if c.get("swap"):
+                res = _swapped_call(fast_ticc, c["swap"], series, hyper)
+            elif c["fe"] == "single":
                 res = fast_ticc.ticc_labels(series[0], **hyper)
             else:
                 res = fast_ticc.ticc_joint_labels(series if not c.get("as_generator") else iter(series), **hyper)
